@@ -80,7 +80,7 @@ def hostile_strings(numbers, tier, rng):
         # case-expanding letters at letter positions
         lpos = [i for i, c in enumerate(v) if c.isalpha()]
         for p in (lpos if tier == 'thorough' else rng.sample(lpos, min(len(lpos), 3))):
-            for ch in C.CASE_EXPANDING + C.LETTERS_FOREIGN[:6]:
+            for ch in C.CASE_EXPANDING + C.LETTERS_FOREIGN + ['ñ', 'ç', 'Ø']:
                 yield ('foreign-letter-subst', 'letterpos', v[:p] + ch + v[p + 1:])
         # two coordinated hostile characters
         for _ in range(6 if tier == 'quick' else 40):
@@ -186,8 +186,16 @@ def decorations(v, modname, tier, rng, pool=None):
         a, b = rng.choice(pool), rng.choice(pool)
         p, q = sorted((rng.randrange(n + 1), rng.randrange(n + 1)))
         yield ('double', v[:p] + a + v[p:q] + b + v[q:])
+    if any(c.isdigit() for c in v):
+        # the whole number typed with the digits of another script
+        for base in (0x0660, 0x06F0, 0xFF10, 0x0966, 0x1D7CE):
+            yield ('transliterated', ''.join(chr(base + int(c)) if c in '0123456789' else c for c in v))
     for pre in prefixes_for(modname):
         yield ('prefix', pre + v)
+        if v[:1].isdigit() and pre.strip():
+            for k in (1, 2):
+                yield ('prefix-zeropad', pre + '0' * k + v)
+                yield ('prefix-zeropad', pre.strip() + '.' + '0' * k + v)
         for ch in (' ', '\n', '-', '.', '\x1c', ' '):
             yield ('prefix-sep', pre + ch + v)
             yield ('prefix-sep', ch + pre + v)
